@@ -268,7 +268,9 @@ def build3(m):
         ensures=['len(result) >= 1', 'implies(len(string) >= 2, len(result) >= 2)',
                  "implies(string.startswith('>'), result.startswith('>'))",
                  # a tab-free line that starts with the marker is left alone (C04)
-                 "implies(string.startswith('>') and not ('\\t' in string), result == string)"],
+                 "implies(string.startswith('>') and not ('\\t' in string), result == string)",
+                 # LINES_NL: the line terminator survives the tab conversion
+                 "implies(string.endswith('\\n'), result.endswith('\\n'))"],
         loops={0: Loop(invariant=['count >= 0',
                                   "implies(_k0 >= 1, string[0] == ' ' or string[0] == '\\t')"])},
         prop=['C01', 'C04']), static=True)
@@ -291,6 +293,15 @@ def build3(m):
                   'N:FileWrapper._anchor', 'N:ParseBuffer.items', 'N:ParseBuffer.loose'],
         allow_exc=['CustomTokenError'],
         body_types={'next_line': TOpt(STR), 'line_buffer': TList(STR)},
+        # stepping stones for LINES_NL (each is proved where it stands, then known)
+        ghost_after={
+            "line = cls.convert_leading_tabs(next(lines).lstrip()).split('>', 1)[1]": [
+                ('__assert__', ("line.endswith('\\n')", ['C01', 'C04']))],
+            'stripped = cls.convert_leading_tabs(next_line.lstrip())': [
+                ('__assert__', ("stripped.endswith('\\n')", ['C01', 'C04']))],
+            'stripped = stripped[prepend:]': [
+                ('__assert__', ("stripped.endswith('\\n')", ['C01', 'C04']))],
+        },
         loops={0: Loop(invariant=[
             'CURSOR_OK(lines)', 'lines._index > old(lines._index)',
             'len(line_buffer) == lines._index - old(lines._index)',
@@ -298,8 +309,10 @@ def build3(m):
             'is_none(next_line) == (lines._index + 1 >= len(lines.lines))',
             'implies(not is_none(next_line), some(next_line) == lines.lines[lines._index + 1])',
             'Paragraph.parse_setext == old(Paragraph.parse_setext)',
+            # LINES_NL for the nested tokenization: every buffered line keeps its terminator
+            "forall(lambda i: line_buffer[i].endswith('\\n'), 0, len(line_buffer))",
         ], decreases='len(lines.lines) - 1 - lines._index')},
-        prop=P), classmethod_=True)
+        prop=P + ['C04']), classmethod_=True)
 
 
 def build4(m):
@@ -332,8 +345,11 @@ def build4(m):
         MOD + ':ListItem.read', [('cls', cls_t('ListItem')), ('lines', FW), ('prev_marker', TOpt(MARKER), NONE_VAL)],
         returns=TTuple([ITEM, TOpt(MARKER)]),
         requires=READER_REQ + ['not is_none(prev_marker) or is_marker(lines.lines[lines._index + 1])',
-                               'implies(not is_none(prev_marker), len(some(prev_marker)[2]) >= 1)'],
+                               'implies(not is_none(prev_marker), len(some(prev_marker)[2]) >= 1)',
+                               # LINES_NL: a marker handed over by the previous item carries non-blank content with its terminator
+                               "implies(not is_none(prev_marker), (some(prev_marker)[3].strip() == '' or some(prev_marker)[3].endswith('\\n')))"],
         ensures=['CURSOR_OK(lines)', 'old(lines._index) < lines._index',
+                 "implies(not is_none(result[1]), (some(result[1])[3].strip() == '' or some(result[1])[3].endswith('\\n')))",
                  # the item records the line of its marker
                  ('result[0][4] == lines.start_line + old(lines._index) + 1', 'C13'),
                  'len(result[0][3]) >= 1',
@@ -382,6 +398,8 @@ def build4(m):
                                'implies(at_loop(1, len(line_buffer)) > 0 or lines._index > at_loop(1, lines._index), '
                                'g_first == (old(lines._index) + 1 if at_loop(1, len(line_buffer)) > 0 else old(lines._index) + 2))',
                                'implies(at_loop(1, len(line_buffer)) == 0 and lines._index == at_loop(1, lines._index), len(line_buffer) == 0)',
+                               # LINES_NL for the nested tokenization
+                               "forall(lambda i: line_buffer[i].endswith('\\n'), 0, len(line_buffer))",
                                ],
                     decreases='len(lines.lines) - 1 - lines._index'),
         }, prop=P + ['C13']), classmethod_=True)
@@ -420,6 +438,7 @@ def build5(m):
             'implies(len(matches) == 0, is_none(next_marker))',
             'implies(len(matches) > 0, not is_none(next_marker) and lines._index + 1 < len(lines.lines) '
             'and is_marker(lines.lines[lines._index + 1]) and len(some(next_marker)[2]) >= 1)',
+            "implies(not is_none(next_marker), (some(next_marker)[3].strip() == '' or some(next_marker)[3].endswith('\\n')))",
             'implies(len(matches) > 0, matches[0][4] == lines.start_line + old(lines._index) + 1)',
         ], decreases='len(lines.lines) - 1 - lines._index')},
         prop=P + ['C13']), classmethod_=True)
@@ -549,8 +568,11 @@ def build8(m):
     c.ensures = ['is_none(result) == (not is_marker(line))',
                  'implies(not is_none(result), 0 <= some(result)[0] and some(result)[0] <= 3 and len(some(result)[2]) >= 1)',
                  # C12 / C09 / C10: the content offset lies behind indentation + leader
-                 'implies(not is_none(result), some(result)[1] >= some(result)[0] + len(some(result)[2]))']
+                 'implies(not is_none(result), some(result)[1] >= some(result)[0] + len(some(result)[2]))',
+                 # LINES_NL: non-blank content of the marker line is a suffix of the line, terminator included
+                 "implies(not is_none(result) and line.endswith('\\n') and some(result)[3].strip() != '', some(result)[3].endswith('\\n'))"]
     c.prop = ['C01', 'C12', 'C09', 'C10', 'C13']
+    c.options = dict(c.options or {}, blank_axiom=True)
     c.note = 'verified against the capture contract re:ListItem.pattern.match'
 
 
@@ -794,11 +816,15 @@ def build14(m):
                         '(a line that continues with non-ASCII whitespace after the blanks has no match)'))
     m.methods[('MatchCP', 'group')] = 're:MatchCP.group'
     m.add(Contract('re:MatchCP.group', [('self', MCP), ('n', INT)], returns=STR, trusted=True, pure=True,
-                   ensures=['result == cp_group(self, n)']))
+                   ensures=['result == cp_group(self, n)',
+                            # group 2 is (\\S.*\\n|\\n): it ends with the line terminator
+                            "implies(n == 2, result.endswith('\\n'))"]))
     c = m.contracts[MOD + ':ListItem.parse_continuation']
     c.trusted = False
     c.note = 'verified against the capture contract re:ListItem.continuation_pattern.match'
     c.prop = ['C01']
+    # LINES_NL: a continuation line handed to the nested tokenization ends with its terminator
+    c.ensures = list(c.ensures) + ["implies(not is_none(result), some(result).endswith('\\n'))"]
 
 
 def build15(m):
